@@ -100,7 +100,23 @@ def canon(x):
 #   'str'    the string prefix+id (default)
 #   'int0'   the int id itself - candidate 0 is falsy (the library's own tests use int candidates)
 #   'empty0' candidate 0 is the empty string (a str, hence inside the documented Candidate type, and falsy), others as 'str'
+#   'person' votelib.candidate.Person objects (documented candidate type; compared and hashed by IDENTITY: a copy of one is a
+#            different candidate); an object the harness did not hand in decodes to id 999999 ("unknown candidate")
 NAME_MODE = 'str'
+_PERSONS = {}
+_PERSON_IDS = {}
+UNKNOWN_CANDIDATE = 999999
+
+
+def _person(prefix, i):
+    key = (prefix, i)
+    if key not in _PERSONS:
+        import votelib.candidate
+        p = votelib.candidate.Person(f'{prefix}{i}')
+        _PERSONS[key] = p
+        _PERSON_IDS[id(p)] = i
+    return _PERSONS[key]
+
 
 
 class Names:
@@ -117,6 +133,8 @@ class Names:
             return i
         if NAME_MODE == 'empty0' and i == 0:
             return ''
+        if NAME_MODE == 'person':
+            return _person(self.prefix, i)
         return f'{self.prefix}{i}'
 
     def i(self, name):
@@ -124,9 +142,9 @@ class Names:
             return self.back[name]
         if isinstance(name, int) and not isinstance(name, bool):
             return name
-        if name == '':
-            return 0
-        return int(name[len(self.prefix):])
+        if isinstance(name, str):
+            return 0 if name == '' else int(name[len(self.prefix):])
+        return _PERSON_IDS.get(id(name), UNKNOWN_CANDIDATE)
 
 
 def _wrap_name_modes(mod):
